@@ -41,7 +41,13 @@ func zzC15_faults() {
 	zzKnownCommand(d, 0, 257)
 	l := &zzListener{ch: make(chan zzAccept, 8)}
 	served := map[string][]uint32{}
+	// the server's handler is a ServeMux of its own, or nil: the documented default, which serves and
+	// reports through DefaultServeMux
 	mux := NewServeMux()
+	useDefault := zzFlag("nilHandlerDefaultMux")
+	if useDefault {
+		mux = DefaultServeMux
+	}
 	mux.HandleFunc("ALL", func(c Conn, m *Message) {
 		name := c.RemoteAddr().String()
 		if m.Header.HopByHopID == 0xbad {
@@ -51,6 +57,9 @@ func zzC15_faults() {
 		m.Answer(2001).WriteTo(c)
 	})
 	srv := &Server{Handler: mux, Dict: d}
+	if useDefault {
+		srv.Handler = nil
+	}
 	serveReturned := false
 	go func() {
 		srv.Serve(l)
